@@ -98,7 +98,10 @@ def smchart_writer_fields(ctx: Ctx) -> None:
     for i, e in enumerate(elts[1:], start=1):
         if isinstance(e, ast.Starred):
             stars.append(e.value)
-            require(i == len(elts) - 1, f"{fi.fq}: starred component is not last: {src(e)}")
+            if i != len(elts) - 1:
+                ctx.bad("R-TABLE", fi, "written field order == SM_CHART_PROPERTIES", f"a variable number of components ({src(e, 60)}) is written before the note data: the six fields are not "
+                        f"written one by one in the documented order {list(table)} (the reader zips the components with that table)", node=call)
+                return
             continue
         require(not stars, f"{fi.fq}: field after the starred extras")
         parts = string_parts(e)
